@@ -112,6 +112,7 @@ class Dyn:
         self.tag = z3.Int(f"{name}_tag")
         self.ival = z3.Int(f"{name}_int")
         self.ident = z3.Int(f"{name}_id")
+        self.nonempty = z3.Bool(f"{name}_nonempty")      # for str / tuple values: len() > 0
 
     def wf(self):
         return z3.And(self.tag >= 0, self.tag <= T_OTHER)
@@ -476,8 +477,9 @@ class Exec:
         if v is NONE:
             return z3.BoolVal(False)
         if isinstance(v, Dyn):
-            # None -> False, int -> != 0, other objects -> truthy (str/tuple emptiness is not modelled: unsupported)
-            return z3.And(v.tag != T_NONE, z3.Or(v.tag != T_INT, v.ival != 0))
+            # None -> False, int -> != 0, str/tuple -> non-empty, other objects -> truthy
+            return z3.And(v.tag != T_NONE, z3.Or(v.tag != T_INT, v.ival != 0),
+                          z3.Or(z3.And(v.tag != T_STR, v.tag != T_TUPLE), v.nonempty))
         if isinstance(v, (SymObj, Rng)):
             return z3.BoolVal(True)
         if isinstance(v, tuple):
